@@ -1,0 +1,43 @@
+//go:build verif
+
+package router
+
+// Add-only hook for the C19 "many keys in flight" check: place an answer into the RUNNING router's
+// memory cache with caller-chosen stored/expire instants (so that an entry is inside / outside the
+// last quarter of its lifetime without waiting for it). Everything goes through the real functions:
+// dnsmsg.UnpackMsg, packCacheMsg, cacheKey (client group "": no ip marker) and MemoryCache.Store.
+
+import (
+	"errors"
+	"time"
+
+	"github.com/IrineSistiana/mosproxy/internal/dnsmsg"
+	"github.com/IrineSistiana/mosproxy/internal/pool"
+)
+
+// VerifC19StoreAt stores the wire message respWire (a response with exactly one question) under its
+// question, stored at now+storedOff and expiring at now+expireOff.
+func (v *VerifRouter) VerifC19StoreAt(respWire []byte, storedOff, expireOff time.Duration) error {
+	c := v.r.cache
+	if c == nil || c.memory == nil {
+		return errors.New("verif: router has no memory cache")
+	}
+	m, err := dnsmsg.UnpackMsg(respWire)
+	if err != nil {
+		return err
+	}
+	defer dnsmsg.ReleaseMsg(m)
+	if len(m.Questions) != 1 {
+		return errors.New("verif: response must carry one question")
+	}
+	b, err := packCacheMsg(m)
+	if err != nil {
+		return err
+	}
+	defer pool.ReleaseBuf(b)
+	k := cacheKey(m.Questions[0], "")
+	defer pool.ReleaseBuf(k)
+	now := time.Now()
+	c.memory.Store(k, now.Add(storedOff), now.Add(expireOff), b, false)
+	return nil
+}
